@@ -114,6 +114,15 @@ pub struct FnTr<'w> {
     pub effect_allowed: Option<*const syn::ExprMethodCall>,
     /// `u64` is `UInt64` in this function
     pub bits: bool,
+    /// `&mut Struct` parameters (lean names): their final values are part of the result
+    pub inout: Vec<String>,
+    /// active mutable borrows of fields of `self`: (condition variable, local variables, fields if the condition
+    /// holds, fields otherwise); the result of the function writes the locals back
+    pub writebacks: Vec<(String, Vec<String>, Vec<String>, Vec<String>)>,
+    /// lean names of the `&mut` struct arguments of the call translated last (rebound by the call statement)
+    pub last_inout: Vec<String>,
+    /// translating the call of a call statement (where `&mut` struct arguments are allowed)
+    pub in_call_stmt: bool,
 }
 
 pub const LEAN_KEYWORDS: &[&str] = &[
